@@ -20,10 +20,12 @@ import (
 	"errors"
 	"fmt"
 	"os"
+	"strings"
 )
 
 import (
 	"github.com/bfenetworks/bfe/bfe_util/json"
+	"github.com/bfenetworks/bfe/bfe_util/string_reverse"
 )
 
 type HostnameList []string // list of hostname
@@ -139,11 +141,17 @@ func HostRuleConfLoad(filename string) (HostConf, error) {
 	// convert HostTagToHost to Host2HostTag
 	host2HostTag := make(Host2HostTag)
 
+	// hosts are looked up by their lower-cased, reversed name (see buildHostRoute in bfe_route):
+	// two names with the same lookup key would make the result depend on map iteration order
+	hostKeys := make(map[string]bool)
+
 	for hostTag, hostnameList := range *config.Hosts {
 		for _, hostName := range *hostnameList {
-			if host2HostTag[hostName] != "" {
+			hostKey := string_reverse.ReverseFqdnHost(strings.ToLower(hostName))
+			if hostKeys[hostKey] {
 				return conf, fmt.Errorf("host duplicate for %s", hostName)
 			}
+			hostKeys[hostKey] = true
 			host2HostTag[hostName] = hostTag
 		}
 	}
@@ -153,6 +161,9 @@ func HostRuleConfLoad(filename string) (HostConf, error) {
 
 	for product, hostTagList := range *config.HostTags {
 		for _, hostTag := range *hostTagList {
+			if other, ok := hostTag2Product[hostTag]; ok && other != product {
+				return conf, fmt.Errorf("hostTag[%s] belongs to both product %s and %s", hostTag, other, product)
+			}
 			hostTag2Product[hostTag] = product
 		}
 	}
